@@ -21,6 +21,16 @@ FAMILY_ASSUMPTIONS = {
         "external functions as contract stubs (drivers/synthetic.drv.c): getenv -> NULL, hwloc_type_sscanf (any valid type; cache depth 1..5 tied to the type), hwloc_obj_type_string / hwloc_obj_type_snprintf, strtoul family (over-approximating stub, or exact decimal parser for the structured descriptions), strspn/strcspn/strncasecmp models, memmove as an element-wise backward copy of level entries",
         "not decided: hwloc__look_synthetic (object creation through the core insertion code), faithful build (arities, index orderings in the resulting tree), export/import round trip, the v1 pre-check of hwloc_topology_export_synthetic",
     ],
+    "xmlimport": [
+        "the XML backend is replaced by the executable contract of the state API of include/private/xml.h (drivers/xml.drv.c): next_attr / find_child / get_content / close_* deliver ANY sequence of attributes (names from a pool of every known name + an unknown one, arbitrary short values), children and contents; a declared content length is not assumed to equal strlen",
+        "strtoul / strtoull: value <= 7, end pointer anywhere in the string; atoi: any int; hwloc_type_sscanf: any valid type or -1; hwloc_internal_distances_add_by_index: contract stub that checks the sizes of the arrays it receives and takes ownership",
+        "bounded: <= 5 attributes per element, <= 3 children, values <= 2 chars, contents <= 4 chars; the nolibxml scanners that implement the API are checked separately (same property)",
+    ],
+    "dup": [
+        "allocations succeed in these jobs (cbmc --no-malloc-may-fail): hwloc does not handle allocation failure on the dup path (hwloc_topology_setup_defaults dereferences unchecked malloc results), those paths are not decided",
+        "sets are abstract records 'duplicate of X' (drivers/dup.drv.c); the real hwloc_bitmap_tma_dup is proved under C03 (fresh block, equal abstract value); hwloc_internal_{distances,memattrs,cpukinds}_dup are logging stubs in the hwloc__topology_dup job (distances_dup has its own job); component / PCI / distances / memattrs / cpukinds init are no-op stubs",
+        "explicit small states: a topology made of one childless Machine object; the recursion of hwloc__duplicate_object over children and the linking of cousins / siblings are not decided",
+    ],
     "nolibxml": ["strspn model (/verif/stubs/strspn.h); cbmc's strchr/strcmp/strncmp/strlen models; the buffer is BL arbitrary bytes + NUL allocated with its exact size; next_attr assumes the invariant find_child is shown to establish (attribute text ends before the final byte)"],
     "base64": ["C-locale isspace (driver), cbmc's strchr model; exact-size malloc'ed buffers"],
     "printers": ["snprintf C99 contract stub (pieces <= 24 chars); explicit bitmap object with NW stored words; guarded arena for the destination"],
